@@ -313,6 +313,32 @@ mod verif_c19p {
         kani::cover!(r.is_some());
         kani::cover!(r.is_none());
     }
+
+    /// A one-pixel polyline drawn through the styling API is its points(): pixels() of a width-1 style yields
+    /// exactly the points of Polyline::points() -- translation applied once -- in the stroke colour (first
+    /// three items compared, so the first joint is crossed), and nothing for a transparent stroke.
+    //@harness prop=C19,C07 kind=bounded tier=thorough class=P bound="3 vertices from the origin with unit or zero length segments, first 3 pixels; translation within -8..=7 (did not finish in 500 s)" timeout=3000 fns=src/primitives/polyline/styled.rs::StyledPixelsIterator::new;src/primitives/polyline/styled.rs::StyledPixelsIterator::next
+    #[kani::proof]
+    #[kani::unwind(5)]
+    fn c19_polyline_thin_pixels_are_points() {
+        use crate::{pixelcolor::Gray8, primitives::{Primitive, PrimitiveStyle, styled::StyledPixels}, Pixel};
+        let v0 = Point::new(0, 0);
+        let v = [v0, v0 + any_point(1), v0 + any_point(1) + any_point(1)];
+        let tr = Point::new((kani::any::<u8>() & 15) as i32 - 8, (kani::any::<u8>() & 15) as i32 - 8);
+        let pl = Polyline { translate: tr, vertices: &v };
+        let style = PrimitiveStyle::with_stroke(Gray8::new(7), 1);
+        let mut px = pl.pixels(&style);
+        let mut pts = pl.points();
+        let mut k = 0;
+        while k < 3 {
+            let (a, b) = (px.next(), pts.next());
+            assert!(a == b.map(|p| Pixel(p, Gray8::new(7))));
+            k += 1;
+        }
+        let none = PrimitiveStyle::<Gray8>::new();
+        assert!(pl.pixels(&none).next().is_none());
+        kani::cover!(tr.x != 0 && tr.y != 0 && v[0] != v[1]);
+    }
 }
 //@end
 
